@@ -10,3 +10,6 @@ pub use namespace::NamespaceId;
 pub(crate) use namespace::NamespaceLookup;
 pub use prefix::PrefixId;
 pub(crate) use prefix::PrefixLookup;
+
+#[cfg(faassen_xot_verif)]
+pub(crate) use idmap::IdIndex;
